@@ -55,7 +55,15 @@ func formatLog(attrs *audit.Info) *zerolog.Event {
 	return attrs.AttrsForLog("rpm.")
 }
 
-func sign(r io.Reader, cert *certloader.Certificate, opts signers.SignOpts) ([]byte, error) {
+// guard converts a panic of the RPM header parser (index entries are not bounds-checked there) into an error
+func guard(err *error) {
+	if r := recover(); r != nil {
+		*err = fmt.Errorf("malformed RPM: %v", r)
+	}
+}
+
+func sign(r io.Reader, cert *certloader.Certificate, opts signers.SignOpts) (patch []byte, err error) {
+	defer guard(&err)
 	config := &rpmutils.SignatureOptions{
 		Hash:         opts.Hash,
 		CreationTime: opts.Time.UTC().Round(time.Second),
@@ -68,17 +76,18 @@ func sign(r io.Reader, cert *certloader.Certificate, opts signers.SignOpts) ([]b
 	if err != nil {
 		return nil, err
 	}
-	patch := binpatch.New()
-	patch.Add(0, int64(header.OriginalSignatureHeaderSize()), blob)
+	ps := binpatch.New()
+	ps.Add(0, int64(header.OriginalSignatureHeaderSize()), blob)
 	md5, _ := header.GetBytes(rpmutils.SIG_MD5)
 	sha1, _ := header.GetString(rpmutils.SIG_SHA1)
 	opts.Audit.Attributes["rpm.nevra"] = nevra(header)
 	opts.Audit.Attributes["rpm.md5"] = hex.EncodeToString(md5)
 	opts.Audit.Attributes["rpm.sha1"] = sha1
-	return opts.SetBinPatch(patch)
+	return opts.SetBinPatch(ps)
 }
 
-func verify(f *os.File, opts signers.VerifyOpts) ([]*signers.Signature, error) {
+func verify(f *os.File, opts signers.VerifyOpts) (ret []*signers.Signature, err error) {
+	defer guard(&err)
 	// TODO: add a flag to skip payload digest to rpmutils.Verify
 	header, sigs, err := rpmutils.Verify(f, opts.TrustedPgp)
 	if err != nil {
@@ -87,7 +96,6 @@ func verify(f *os.File, opts signers.VerifyOpts) ([]*signers.Signature, error) {
 	if len(sigs) == 0 {
 		return nil, sigerrors.NotSignedError{Type: "RPM"}
 	}
-	var ret []*signers.Signature
 	seen := make(map[uint64]bool)
 	for _, sig := range sigs {
 		if seen[sig.KeyId] {
@@ -113,7 +121,10 @@ func verify(f *os.File, opts signers.VerifyOpts) ([]*signers.Signature, error) {
 }
 
 func nevra(header *rpmutils.RpmHeader) string {
-	nevra, _ := header.GetNEVRA()
+	nevra, err := header.GetNEVRA()
+	if err != nil || nevra == nil {
+		return ""
+	}
 	snevra := nevra.String()
 	// strip .rpm
 	snevra = snevra[:len(snevra)-4]
